@@ -18,6 +18,8 @@ type SimDriver struct {
 	UDP *net.UDPConn // socket buffered packets are re-injected from
 	WG  *sync.WaitGroup
 	sh  *sentinelHandler
+	mc  *SimConn // simulated multicast connection served by the real mux
+	conn, ps *SimConn
 }
 
 // Sentinel registration used as a barrier for the perio server: its URR exists
@@ -120,11 +122,40 @@ func NewSimDriver(o SimDriverOpts) (*SimDriver, error) {
 		k.CloseAll()
 		return nil, err
 	}
-	return &SimDriver{G: g, K: k, UDP: udp, WG: wg}, nil
+	return &SimDriver{G: g, K: k, UDP: udp, WG: wg, conn: conn, ps: ps}, nil
 }
 
 // Close shuts the driver down the way the application does and joins its goroutines.
 func (d *SimDriver) Close() {
 	d.G.Close()
 	d.K.CloseAll()
+}
+
+// AttachMulticast subscribes the buffering listener to a simulated multicast
+// connection on the driver's real mux: messages written with MulticastAsync
+// are read and dispatched by the mux goroutine, as kernel multicasts are in
+// production.
+func (d *SimDriver) AttachMulticast() error {
+	c, err := d.K.NewConn("mcast")
+	if err != nil {
+		return err
+	}
+	d.mc = c
+	return d.G.VerifMux().PushHandler(nl.Conner(c), d.G.VerifBuff())
+}
+
+// MulticastAsync queues a multicast body (genl header + attributes) for the mux.
+func (d *SimDriver) MulticastAsync(body []byte) {
+	b := make([]byte, 16+len(body))
+	ne.PutUint32(b[0:4], uint32(len(b)))
+	ne.PutUint16(b[4:6], uint16(d.K.Family))
+	copy(b[16:], body)
+	d.mc.send(b)
+}
+
+// CloseConns closes the client side of the two generic-netlink connections,
+// which is the first thing Gtp5g.Close does with its own sockets.
+func (d *SimDriver) CloseConns() {
+	d.conn.Close()
+	d.ps.Close()
 }
